@@ -904,23 +904,45 @@ fn run_enc(t: &[&str]) -> Option<(String, Vec<String>)> {
         return None;
     }
     let data = make_image(w, h, color, seed);
-    let image = ImageView::new(&data, Size::new(w, h), color)?;
+    // two variations derived from the case's seed (the property quantifies over every image and every writer):
+    //  * every third case hands the image over as a STRIDED view whose row pitch is not a multiple of the pixel size
+    //    (fragments are crops of the view: their start must be computed in bytes, not in pixels),
+    //  * every fourth case writes through a sink that accepts only a few bytes per `write` call (pipes, sockets):
+    //    sequential, parallel and fragment-wise output must still be the same bytes.
+    let bpp = color.bytes_per_pixel() as usize;
+    let strided: Vec<u8>;
+    let image = if seed % 3 == 1 && w > 0 && h > 0 {
+        let extra = [1usize, 3, 5, 7, bpp + 1][(seed / 3 % 5) as usize];
+        let pitch = w as usize * bpp + extra;
+        let mut buf = vec![0xA5u8; pitch * h as usize];
+        for y in 0..h as usize {
+            buf[y * pitch..y * pitch + w as usize * bpp].copy_from_slice(&data[y * w as usize * bpp..(y + 1) * w as usize * bpp]);
+        }
+        strided = buf;
+        ImageView::new_with(&strided, pitch, Size::new(w, h), color)?
+    } else {
+        ImageView::new(&data, Size::new(w, h), color)?
+    };
+    let max_write = if seed % 4 == 2 { [1usize, 7, 100, 4096][(seed / 4 % 4) as usize] } else { usize::MAX };
+    let sink = || crate::c09::ShortWriter { data: Vec::new(), max: max_write };
     let mut orc = vec![];
 
     let seq_opts = options(d, q, m, false);
     let par_opts = options(d, q, m, true);
 
     // sequential
-    let mut seq = Vec::new();
+    let mut seq = sink();
     let r_seq = encode(&mut seq, image, format, None, &seq_opts);
+    let seq = seq.data;
 
     // geometry (tiling facts on this very image)
     let (len, frags) = split_geometry(image, format, &par_opts, &mut orc);
 
     // parallel, inside a pool of the requested size, completion order imposed through the hook
     let sched = Sched::new(&[len as usize], threads, order, seed, false);
-    let mut par = Vec::new();
+    let mut par = sink();
     let r_par = with_hook(&sched, || pool(threads).install(|| encode(&mut par, image, format, None, &par_opts)));
+    let par = par.data;
     let released = sched.released().into_iter().next().unwrap_or_default();
     if std::env::var("DDSV_SCHED_STATS").is_ok() {
         let (f, to) = sched.stats();
@@ -932,8 +954,8 @@ fn run_enc(t: &[&str]) -> Option<(String, Vec<String>)> {
 
     // fragment by fragment
     let split = SplitView::new(image, format, &seq_opts);
-    let mut frag = Vec::new();
-    let mut frag2 = Vec::new();
+    let mut frag = sink();
+    let mut frag2 = sink();
     let mut r_frag = Ok(());
     for i in 0..split.len() {
         let fr = split.get(i)?;
@@ -949,6 +971,7 @@ fn run_enc(t: &[&str]) -> Option<(String, Vec<String>)> {
         }
     }
 
+    let (frag, frag2) = (frag.data, frag2.data);
     let status = |r: &Result<(), EncodingError>| match r {
         Ok(()) => "ok".to_string(),
         Err(e) => format!("err:{}", crate::c17::err_name(e)),
